@@ -203,6 +203,7 @@ func runC20(c *kit.Ctx) {
 
 	// ---- R2 -----------------------------------------------------------------
 	c.StartRule("R2", "dial performed once per connection object", 4)
+	dialRunsUnderTheEstablishedRegion(c)
 	lit, _ := onceLiteral(dial, dialOnce)
 	if lit == nil {
 		c.Bad(dial, "dial-once", dial.Pos(), "Dial no longer runs its body under dialOnce.Do", "")
@@ -326,6 +327,7 @@ func runC20(c *kit.Ctx) {
 	clientDownOnlyWhenDead(c, hre, est)
 	deadConnectionIsTheFailedOne(c)
 	closedErrorOnlyWhenClosed(c)
+	exceptionTableOracle(c)
 
 	// ---- R4 -----------------------------------------------------------------
 	c.StartRule("R4", "regions get their connection from the cache", 5)
